@@ -526,5 +526,5 @@ def gen_fsm_case(r, run_model, nsteps=None, good_tail=0, cache_ver=None, faults=
     ops = script() + ["show", "dump", "run stop", "show", "dump"]
     c.ops = ops
     c.meta = {"used": used, "cache_p": set(cache.p), "cache_k": set(cache.k), "cver": cver, "good_tail": good_tail,
-              "refresh": refresh, "expire": expire, "retry": retry, "mut": "fsm:" + ",".join(used[:6])}
+              "refresh": refresh, "expire": expire, "retry": retry, "mut": "fsm"}
     return c
